@@ -18,17 +18,32 @@ LEVEL_TEXT = ('Partial. Proved (Coq/Coquelicot/Interval) about what optimism add
               'regenerated kernel; the sqrt/exp/log/pow relative-difference kernels equal the divided differences (f l1 - f l2)/(l1 - l2); the '
               'Taylor branch of the reference log kernel is within 1e-9 relative on |l1-l2| <= 0.05 min(l1,l2) (mean value theorem + interval); '
               'the x2==x1 guard yields the first divided difference f[x1,x2]; the JVP helper on a diagonal argument is the Hadamard product of '
-              'the divided-difference matrix with sym(Cdot), which for monomials is the derivative of the matrix power (Daleckii-Krein). '
+              'the divided-difference matrix with sym(Cdot), which for monomials is the derivative of the matrix power (Daleckii-Krein); for '
+              'non-diagonal arguments under the eigh contract (V orthogonal, A = V diag(lam) V^T) the helper is the derivative of every matrix '
+              'polynomial. Round 4: the WHOLE helper is a regenerated kernel (Gen_TensorMathJVP, eigen-solver opaque, func / relative_difference / '
+              'jacfwd(func) oracles) proved equal to the hand model on whatever pair the eigen-solver returns, Daleckii-Krein restated over it; the '
+              'helper output and the primal V diag(f(lam)) V^T are independent of which eigen-decomposition the solver returns (rotated eigenspaces, '
+              'permuted eigenvalues); Daleckii-Krein for a GENERAL f given by a derivative hypothesis at the eigenvalues, distinct or coinciding, for '
+              'the primal computed with any eigen-solver satisfying the contract along the line -- under the hypothesis (not proved: Rellich) that '
+              'some eigen-decomposition of A + t sym(Cdot) is differentiable at t = 0; finding F14 characterised by a refutation theorem with an exact '
+              'witness (the generated helper at dual numbers = forward mode over the rule: at A = diag(1,1,2), f = x^2, it yields second derivative 1 '
+              'where it is 2 with the eigen-solver tangent JAX produces -- replayed on the implementation every run -- and 0 where it is 1 even with '
+              'an exact eigen-path tangent, through the x2==x1 guard). '
               'Not proved: that JAX differentiates the remaining primitives correctly -- every material model is compared on every run: jax.grad '
               'and jax.jvp(jax.grad) of the energy density versus 6th-order central differences of the same energy.')
 TECHNIQUE = 'Coq proof (Reals + Coquelicot + Interval) over regenerated kernels and hand models; binary64 correspondence; AD-vs-finite-difference comparison of every material model'
-GEN = ['Math', 'TensorMathFun', 'TensorMathAD']
-TARGETS = ['model/M_C10.vo', 'proofs/L_C10.vo', 'proofs/L_C10_DK.vo', 'proofs/L_C10_End.vo', 'proofs/L_C10_DKV.vo']
-COQ_FILES = ['base/Num.v', 'model/M_C10.v', 'proofs/L_C10.v', 'proofs/L_C10_DK.v', 'proofs/L_C10_End.v', 'proofs/L_C10_DKV.v', 'props/P_C10.v']
+GEN = ['Math', 'TensorMathFun', 'TensorMathAD', 'TensorMathJVP']
+TARGETS = ['model/M_C10.vo', 'model/M_C10_Dual.vo', 'proofs/L_C10.vo', 'proofs/L_C10_DK.vo', 'proofs/L_C10_End.vo', 'proofs/L_C10_DKV.vo',
+           'proofs/L_C10_Gen.vo', 'proofs/L_C10_Inv.vo', 'proofs/L_C10_DKF.vo', 'proofs/L_C10_F14.vo']
+COQ_FILES = ['base/Num.v', 'model/M_C10.v', 'model/M_C10_Dual.v', 'proofs/L_C10.v', 'proofs/L_C10_DK.v', 'proofs/L_C10_End.v', 'proofs/L_C10_DKV.v',
+             'proofs/L_C10_Gen.v', 'proofs/L_C10_Inv.v', 'proofs/L_C10_DKF.v', 'proofs/L_C10_F14.v', 'props/P_C10.v']
 TRUSTED = ['Coq 8.16.1 kernel + vm_compute (no native_compute)',
            'tools/vlib/py2coq.py translator (expm1(x) -> exp x - 1, log1p(x) -> ln(1 + x): exact over R, less accurate in binary64 near 0)',
            'hand models of the x2==x1 guard / _symmetric_matrix_function_jvp_helper (M_C10.v), tied by binary64 correspondence given the '
-           'implementation\'s own eigen-pairs (the log / pow relative-difference kernels are regenerated: Gen_TensorMathFun)',
+           'implementation\'s own eigen-pairs AND proved equal over R to the regenerated body Gen_TensorMathJVP.jvp_helper_gen (C10_generated_helper_is_model; '
+           'the regenerated body is also run at binary64 against the implementation); the log / pow relative-difference kernels are regenerated: Gen_TensorMathFun',
+           'translator handling of function-valued parameters (oracles), jax.jacfwd(func) as the derivative oracle and the opaque eigen_sym33_unit in module TensorMathJVP',
+           'dual-number instance M_C10_Dual.NumD as a model of JAX forward mode over the rule (selects on values; tied to the implementation on the F14 witness only)',
            'model-side binary64 exp/ln approximations (|rel err| < 1e-14) used only to execute models',
            'JAX autodiff of all other primitives: not proved, compared with finite differences of the energy density',
            'the sqrt/exp/plain-log *_relative_difference_exact lemmas of proofs/L_C12.v and the argsort log / pow kernel lemmas of proofs/L_C12_RD.v (restated)']
@@ -38,16 +53,21 @@ ASSUMPTIONS = ['theorems over exact reals; binary64 behaviour only through the c
                'does not occur in the hypotheses (end-point roots are NOT excluded: C10_scalar_ift_at_bracket_end), only differentiability of the '
                'residual at the root is needed (fails for the power-law rate term at eqps = eqpsOld, never the root of a yielding step)',
                'relative-difference theorems need positive arguments where sqrt/log/real powers are involved and l1 <> l2',
-               'finite-difference comparisons reject stencils that straddle a constitutive switch (yield surface, tension/compression split)']
+               'finite-difference comparisons reject stencils that straddle a constitutive switch (yield surface, tension/compression split)',
+               'general-f Daleckii-Krein (C10_daleckii_krein_eigenpath / _eigh_solver / _path): hypothesis that SOME eigen-decomposition of A + t sym(Cdot) is '
+               'differentiable at t = 0 (Rellich; not proved), f differentiable at the three eigenvalues, rel = divided difference of f off the diagonal; '
+               'directional (Gateaux) derivatives entry by entry',
+               'eigh contract (V orthogonal, A = V diag(lam) V^T) is a hypothesis on the opaque eigen-solver (the solver itself is property C12)']
 RULE = ('L1: kernels at random positive arguments over 8 decades plus near-cancellation streams l2 = l1(1+d), d = 1e-1..1e-13, and exactly equal '
-        'arguments; helper on random SPD tensors incl. exactly repeated eigenvalues. L2: every material family each run (J2 options rotate in the quick '
+        'arguments; helper on random SPD tensors incl. exactly repeated eigenvalues, hand model AND regenerated body (Gen_TensorMathJVP) at binary64; the F14 '
+        'witness (eigen-solver tangent and second derivative of pow_symm(., 2) at diag(1,1,2)) replayed against the dual-number theorem. L2: every material family each run (J2 options rotate in the quick '
         'tier, all 18 kinematics x hardening x rate combinations in thorough; plus flat hardening -- linear H = 0 and voce with Ysat = Y0, '
         'i.e. perfect plasticity with the root of the internal solve on the upper bracket end -- for every kinematics option, actively yielding '
         'generic points only, one combination per quick run, all 6 in thorough), random admissible constants, states from 1-3 random load steps, '
         'evaluation points on the elastic and on the yielding side, gradient (all 9 components) and tangent action in random and coordinate '
         'directions versus 6th-order central differences at steps h and 2h; non-trivial = internal state evolved or nonlinear kinematics; '
         'distinct = distinct (model, options, state, point, direction)')
-IMPORTS = ['From OV.gen Require Import Gen_Math Gen_TensorMathFun Gen_TensorMathAD.', 'From OV.model Require Import M_C10.']
+IMPORTS = ['From OV.gen Require Import Gen_Math Gen_TensorMathFun Gen_TensorMathAD Gen_TensorMathJVP.', 'From OV.model Require Import M_C10.']
 
 EPS = 2.220446049250313e-16
 C1 = [(-3, -1.0 / 60), (-2, 3.0 / 20), (-1, -3.0 / 4), (1, 3.0 / 4), (2, -3.0 / 20), (3, 1.0 / 60)]
@@ -236,17 +256,64 @@ def kernels_layer(ctx, model_ok):
             C.cf(float(lam[0])), C.cf(float(lam[1])), C.cf(rv[0]), C.cf(float(lam[1])), C.cf(float(lam[2])), C.cf(rv[1]), C.cf(rv[2]))
         hex_.append('fencs (list_of_mat (jvp_helper %s %s (fun i => nth i %s nzero) (mat_of_list %s) (mat_of_list %s)))'
                     % (DF[kind], rel, fl(lam), fl(V), fl(Cd)))
+        # the REGENERATED body of the helper (Gen_TensorMathJVP.jvp_helper_gen): the opaque eigen-solver is the constant function returning the
+        # implementation's own (lam, V); func is unused by the rule; relative_difference / jacfwd(func) are the same oracles as for the hand model
+        sp = lambda A: ' '.join(C.cf(float(x)) for x in onp.asarray(A).ravel())
+        tup = '(' + ', '.join(C.cf(float(x)) for x in list(lam) + list(onp.asarray(V).ravel())) + ')'
+        hex_.append("(let '(a, b, c, d, e, f, g, h, i) := jvp_helper_gen (fun _ _ _ _ _ _ _ _ _ => %s) (fun x => x) %s %s %s %s in fencs [a; b; c; d; e; f; g; h; i])"
+                    % (tup, rel, DF[kind], sp(Cm), sp(Cd)))
         hc.append((kind, Cm, Cd, lam, sol))
     res = C.coq_eval(IMPORTS, hex_, 'C10h', shard=60)
-    for (kind, Cm, Cd, lam, sol), zs in zip(hc, res):
-        m = onp.array(C.dec_floats(zs)).reshape(3, 3)
-        ctx.count('model_vs_impl_comparisons')
-        sc = max(1.0, float(onp.abs(sol).max()))
-        if not onp.abs(m - sol).max() <= 1e-11 * sc:
-            nm += 1
-            ctx.fail('correspondence', 'JVP helper (%s, eigenvalues %s): model and implementation differ by %.3g' % (kind, list(lam), float(onp.abs(m - sol).max())),
-                     case=dict(layer='helper', kind=kind, C=Cm.tolist(), Cdot=Cd.tolist()))
+    for k, (kind, Cm, Cd, lam, sol) in enumerate(hc):
+        for which, zs in (('hand model', res[2 * k]), ('regenerated body', res[2 * k + 1])):
+            m = onp.array(C.dec_floats(zs)).reshape(3, 3)
+            ctx.count('model_vs_impl_comparisons')
+            ctx.count('helper_%s_cases' % which.split()[0])
+            sc = max(1.0, float(onp.abs(sol).max()))
+            if not onp.abs(m - sol).max() <= 1e-11 * sc:
+                nm += 1
+                ctx.fail('correspondence', 'JVP helper (%s, eigenvalues %s): %s and implementation differ by %.3g' % (kind, list(lam), which, float(onp.abs(m - sol).max())),
+                         case=dict(layer='helper', kind=kind, C=Cm.tolist(), Cdot=Cd.tolist()))
     ctx.count('model_vs_impl_mismatches', nm)
+
+
+def f14_witness_layer(ctx):
+    """C10_second_derivative_refuted (a), replayed: at A = diag(1,1,2) the eigen-solver returns lam = (1,1,2), V = [[0,1,0],[-1,0,0],[0,0,1]] and JAX's
+    tangent of it in the direction e00 is dlam = (1/2,1/2,0), dV = 0; with these the rule's second derivative of X -> X^2 in (e00, e00) is 1 in
+    entry (0,0) (dual-number evaluation of the regenerated helper); the true value is 2.  Three outcomes: the implementation reproduces the theorem's
+    numbers (F14 open, as recorded); it returns 2 (F14 repaired: the refutation no longer describes the code -- a note); anything else means the
+    dual-number model does not describe how the rule is differentiated (correspondence failure)."""
+    import numpy as onp
+    import jax
+    import jax.numpy as np
+    from optimism import TensorMath as TM
+    ctx.count('evaluations')
+    A = np.diag(np.array([1.0, 1.0, 2.0]))
+    e00 = np.array(onp.diag([1.0, 0.0, 0.0]))
+    (lam, V), (dlam, dV) = jax.jvp(TM.eigen_sym33_unit, (A,), (e00,))
+    f = lambda X: TM.pow_symm(X, 2)
+    first = onp.asarray(jax.jvp(f, (A,), (e00,))[1])
+    second = onp.asarray(jax.jvp(lambda X: jax.jvp(f, (X,), (e00,))[1], (A,), (e00,))[1])
+    got = dict(lam=onp.asarray(lam).tolist(), V=onp.asarray(V).tolist(), dlam=onp.asarray(dlam).tolist(), dV=onp.asarray(dV).tolist(),
+               first_00=float(first[0, 0]), second_00=float(second[0, 0]))
+    Vw = onp.array([[0.0, 1.0, 0.0], [-1.0, 0.0, 0.0], [0.0, 0.0, 1.0]])
+    premise = (onp.abs(onp.asarray(lam) - [1, 1, 2]).max() <= 1e-12 and onp.abs(onp.asarray(V) - Vw).max() <= 1e-12
+               and onp.abs(onp.asarray(dlam) - [0.5, 0.5, 0]).max() <= 1e-12 and onp.abs(onp.asarray(dV)).max() <= 1e-12)
+    ctx.cov['f14_witness'] = got
+    if abs(first[0, 0] - 2.0) > 1e-12:
+        ctx.fail('conclusion', 'first derivative of pow_symm(., 2) at diag(1,1,2) in direction e00 is %r in entry (0,0); A E + E A gives 2' % float(first[0, 0]),
+                 case=dict(layer='f14_witness'), concrete=True)
+    if abs(second[0, 0] - 2.0) <= 1e-9:
+        ctx.count('f14_witness_repaired')
+        ctx.notes.append('F14 witness: the second derivative of pow_symm(., 2) at diag(1,1,2) is now 2 (correct); C10_second_derivative_refuted no longer describes the implementation')
+    elif premise and abs(second[0, 0] - 1.0) <= 1e-9:
+        ctx.count('f14_witness_reproduced')
+    elif premise:
+        ctx.fail('correspondence', 'F14 witness: with the eigen-solver tangent of the theorem the dual-number evaluation of the regenerated helper gives second '
+                 'derivative 1 in entry (0,0); jax.jvp of the rule gives %r' % float(second[0, 0]), case=dict(layer='f14_witness', got=got))
+    else:
+        ctx.count('f14_witness_premise_changed')
+        ctx.notes.append('F14 witness: the eigen-solver (or its JAX tangent) at diag(1,1,2), direction e00, no longer returns the pair of the theorem: %s' % json.dumps(got))
 
 
 def spd(r, pattern):
@@ -586,6 +653,7 @@ def tensor_jvp_layer(ctx):
 
 def correspondence(ctx, model_ok, only_l2=False):
     kernels_layer(ctx, model_ok and not only_l2)
+    f14_witness_layer(ctx)
     d1 = materials_layer(ctx)
     d2 = tensor_jvp_layer(ctx)
     ctx.count('distinct_nontrivial', d1 + d2 + ctx.counts.get('model_vs_impl_comparisons', 0))
